@@ -222,13 +222,16 @@ def ld_padding_probe(ck, exe, hists):
 # ------------------------------------------------------------------------------------------------ the check
 
 def big_env(tier):
-    """sizes of the big data items: the raw stream is about 1 byte (pattern low) / 1.5 bytes (rand) per u8 element"""
+    """sizes of the big data items: the raw stream is 1 byte (patterns low, rand7) / about 1.5 bytes (rand) / 2 bytes (rep) per u8 element"""
     B = 1 << 18
     if tier == "quick":
-        specs = [(B - 60, "low", "u8"), (B - 59, "low", "u8"), (B + 3000, "rep", "u8"), (2 * B + 5000, "low", "u8")]
+        specs = [(B - 60, "low", "u8"), (B - 59, "low", "u8"), (150000, "mix", "u8"), (2 * B + 5000, "low", "u8")]
     else:
         specs = [(B - 61, "low", "u8"), (B - 60, "low", "u8"), (B - 59, "low", "u8"), (2 * B - 60, "low", "u8"), (400000, "rand", "u8"),
-                 (3 * B + 777, "rep", "u8"), (70000, "rand", "i64"), (40000, "rand", "ld")]
+                 (3 * B + 777, "rep", "u8"), (70000, "rand", "i64"), (40000, "rand", "ld"), (150000, "mix", "u8"), (300000, "rand7", "u8"),
+                 (B + 3000, "rep", "u8")]
+    # "mix": 120000 incompressible one-byte tokens (more symbols than the compressor's 2^16-element pool) followed, in the
+    # same 2^18-byte buffer, by periodic content that is encoded as references
     env = {}
     for i, (n, p, t) in enumerate(specs, 1):
         env["C11_BIGN%d" % i] = n; env["C11_BIGP%d" % i] = p; env["C11_BIGT%d" % i] = t
@@ -317,7 +320,7 @@ def run(tier):
 
     def choose(case, org):
         no_out = "expr_text" in defective and c10.FEATURES["expr"][0](case["M"])
-        cand = [h for (o, n, out, ex), hs in by_org.items() if o == org and n == "canon" and not (no_out and out) and (ex or not case.get("exec")) for h in hs]
+        cand = [h for (o, n, out, ex), hs in by_org.items() if o == org and n in ("canon", "dup") and not (no_out and out) and (ex or not case.get("exec")) for h in hs]
         cand = [h for h in cand if any(s["a"] == "write" for s in h["h"][:2])] or cand
         return rng.choice(cand)
     for gname, cases in groups:
@@ -328,6 +331,10 @@ def run(tier):
             pairs.append((c, choose(c, "api")))
             if gname != "sizes" and (quick or i % 4 == 0) and c10.text_expressible(c["M"]) and not ("expr_text" in defective and c10.FEATURES["expr"][0](c["M"])):
                 pairs.append((c, choose(c, "pytext")))
+            # two module sets built in separate contexts (same label numbers), written separately, read into one context
+            if gname in ("items_exhaustive", "simulated", "insns_exhaustive") and c["M"]["mods"] and i % (3 if quick else 4) == 0:
+                mc = c10.merge_case(c)
+                pairs.append((mc, choose(mc, "merge")))
         use = exe_asan if (exe_asan is not None and gname in ("items_exhaustive", "sizes")) else exe
         res = c10.replay_cases(use, pairs, maxpar=vlib.NCPU, batch=25 if gname != "sizes" else 1)
         if exe_asan is not None and gname == "programs":      # I/O of the programs under ASan too; execution is judged on the plain build
